@@ -65,6 +65,10 @@ def _base_configs():
                   calls=[(1.5, 0.02)], iter="euler", constraints=dict(maxNonIsothermalDT=50)))
     c.append(dict(tag="multi-fault-growth", multi=True, phases=[ph], calls=[(0.5, 0.05)], iter="euler", faults={"growth": [3, 4, 20]}))
     c.append(dict(tag="multi-fault-growth-rk4", multi=True, phases=[ph], calls=[(0.5, 0.05)], iter="rk4", faults={"growth": [2, 9]}))
+    c.append(dict(tag="multi-fault-after-regrid", multi=True, phases=[ph], pbm=(1e-10, 1e-9, 24, 12, 36, True), calls=[(1.0, 0.02), (1.0, 0.02)], iter="euler",
+                  faults={"growth_regrid": [0, 1, 2, 3, 4, 5]}))
+    c.append(dict(tag="multi-fault-after-regrid-rk4", multi=True, phases=[ph], pbm=(1e-10, 1e-9, 24, 12, 36, True), calls=[(1.0, 0.02)], iter="rk4",
+                  faults={"growth_regrid": [0, 2, 4]}))
     c.append(dict(tag="multi-fault-df", multi=True, phases=[ph], calls=[(0.5, 0.05)], iter="euler", faults={"drivingForce": [4, 5]}))
     c.append(dict(tag="fault-df-early", phases=[ph], D=1e-16, calls=[(100.0, 0.05)], iter="euler", faults={"drivingForce": [3]}))
     c.append(dict(tag="fault-df-two", phases=[ph], D=1e-16, calls=[(100.0, 0.05)], iter="rk4", faults={"drivingForce": [5, 11]}))
